@@ -390,6 +390,14 @@ enum Step {
     Pause { ms: u64 },
     /// wait until the transport thread has handled everything emitted so far and polls again
     Settle,
+    /// ONE POLL ROUND: the first sub-step (a describe or a connect, which always make `poll` return) is handled,
+    /// then the transport thread is held before its next `poll` while the other sub-steps (connects, describes,
+    /// emissions, closes, resets) happen, so that their readiness events -- LISTENER, WAKER, client tokens -- are
+    /// returned by one `poll` call and handled back to back: a client accepted in the same round as a fan-out
+    /// (its metadata still queued, its first WRITABLE not yet handled), a whole batch ingested by one wake-up
+    /// next to parked write buffers, a disconnect next to an accept.  Emissions and describes are limited to
+    /// the free room of the channel at that moment (the held thread cannot drain it).
+    Round { steps: Vec<Step> },
 }
 
 const UNITS: &[Unit] = &[Unit::Count, Unit::Percent, Unit::Seconds, Unit::Nanoseconds, Unit::Bytes, Unit::BitsPerSecond];
@@ -448,7 +456,11 @@ impl Gen {
 }
 
 fn gen_faults(r: &mut Rng) -> Vec<Fault> {
-    (0..r.range(1, 3))
+    gen_faults_n(r, 1, 3)
+}
+
+fn gen_faults_n(r: &mut Rng, lo: usize, hi: usize) -> Vec<Fault> {
+    (0..r.range(lo, hi))
         .map(|_| match r.below(5) {
             0 | 1 => Fault::Accept(r.range(1, 12)),
             2 | 3 => Fault::WouldBlock,
@@ -487,7 +499,47 @@ fn gen_script(r: &mut Rng, storm: bool) -> Vec<Step> {
     }
     let n = r.range(4, 14);
     for _ in 0..n {
-        match r.weighted(&[2, 2, 6, 3, 2, 2, 5, 1, 1, 2, 2, 1, 1]) {
+        match r.weighted(&[2, 2, 6, 3, 2, 2, 5, 1, 1, 2, 2, 1, 1, 4, 2]) {
+            13 => {
+                // one poll round: a describe or a connect makes the thread run, then it is held before its poll
+                // while connects / describes / emissions / disconnects pile up for ONE poll call
+                let mut sub = vec![];
+                if nclients < 6 && r.chance(1, 3) {
+                    sub.push(Step::Connect { staller: r.chance(1, 4) });
+                    nclients += 1;
+                } else {
+                    sub.push(describe(r));
+                }
+                let mut connects = 0;
+                for _ in 0..r.range(1, 4) {
+                    match r.weighted(&[3, 2, 5, 1, 1]) {
+                        0 => {
+                            if nclients < 7 && connects < 2 {
+                                sub.push(Step::Connect { staller: r.chance(1, 5) });
+                                nclients += 1;
+                                connects += 1;
+                            }
+                        }
+                        1 => sub.push(describe(r)),
+                        2 => sub.push(Step::Emit { items: g.items(r, 1, 9) }),
+                        3 => sub.push(Step::Close { c: r.below(nclients) }),
+                        _ => sub.push(Step::Reset { c: r.below(nclients) }),
+                    }
+                }
+                s.push(Step::Settle);
+                s.push(Step::Round { steps: sub });
+            }
+            14 => {
+                // a write buffer parked by the socket's refusals with a short queue behind it, then a whole batch
+                // ingested by one wake-up: the fan-out has to flush before it decides what to discard
+                s.push(Step::Settle);
+                s.push(Step::Inject { c: r.below(nclients), faults: gen_faults_n(r, 2, 6) });
+                for _ in 0..r.range(1, 3) {
+                    s.push(Step::Emit { items: g.items(r, 1, 2) });
+                    s.push(Step::Settle);
+                }
+                s.push(Step::Round { steps: vec![describe(r), Step::Emit { items: g.items(r, 2, 9) }] });
+            }
             9 => s.push(Step::HalfClose { c: r.below(nclients) }),
             10 => s.push(Step::Send { c: r.below(nclients), n: *r.pick(&[1usize, 1, 7, 300, 5000]) }),
             11 => {
@@ -673,6 +725,39 @@ fn corpus_raw(d: &dyn Fn(&str) -> Step, em: &dyn Fn(std::ops::Range<u64>) -> Ste
                 Step::Unstall { c: 1 },
                 em(2..3),
             ],
+        ),
+        (
+            // a client accepted in the same poll round as a fan-out: its metadata is still queued (first WRITABLE
+            // not handled yet) when the batch arrives, and metadata + batch exceed buffer_size -- it is healthy
+            // and reading, so nothing may be discarded for it
+            "accept-and-batch-in-one-poll-round",
+            Some(2),
+            vec![d("m"), d("n"), Step::Connect { staller: false }, em(0..1), Step::Round { steps: vec![d("o"), Step::Connect { staller: false }, em(1..3)] }, em(3..4)],
+        ),
+        (
+            "batch-then-accept-in-one-poll-round",
+            Some(3),
+            vec![d("m"), Step::Connect { staller: false }, Step::Round { steps: vec![d("n"), em(0..3), Step::Connect { staller: false }, Step::Connect { staller: true }] }, em(3..5)],
+        ),
+        (
+            // a parked write buffer with a queue shorter than buffer_size behind it (the socket refused three
+            // times), then a full batch ingested by one wake-up: the socket takes everything now, nothing is discarded
+            "parked-buffer-short-queue-then-full-batch",
+            Some(4),
+            vec![
+                Step::Connect { staller: false },
+                Step::Connect { staller: false },
+                Step::Inject { c: 0, faults: vec![Fault::WouldBlock, Fault::WouldBlock, Fault::WouldBlock] },
+                em(0..1),
+                em(1..2),
+                Step::Round { steps: vec![d("m"), em(2..6)] },
+                em(6..7),
+            ],
+        ),
+        (
+            "accept-close-and-batch-in-one-poll-round",
+            Some(1),
+            vec![d("m"), Step::Connect { staller: false }, Step::Connect { staller: false }, Step::Round { steps: vec![Step::Connect { staller: false }, Step::Reset { c: 0 }, em(0..1), Step::Connect { staller: false }] }, em(1..2)],
         ),
         ("large-buffer", Some(1 << 16), vec![d("m"), Step::Connect { staller: false }, Step::Connect { staller: true }, em(0..40), Step::Close { c: 1 }, em(40..60)]),
     ]
@@ -956,6 +1041,33 @@ fn new_client(staller: bool, stream: TcpStream, local_port: u16, token: usize, p
     c
 }
 
+fn do_describe(rec: &TcpRecorder, kind: u32, name: &str, unit: Option<usize>, desc: &str) -> Option<Unit> {
+    let u = unit.map(|i| UNITS[i]);
+    let (kn, d): (KeyName, SharedString) = (KeyName::from(name.to_string()), SharedString::from(desc.to_string()));
+    match kind {
+        0 => rec.describe_counter(kn, u, d),
+        1 => rec.describe_gauge(kn, u, d),
+        _ => rec.describe_histogram(kn, u, d),
+    }
+    u
+}
+
+fn do_close(cl: &mut Client, reset: bool, si: usize, log: &Log) {
+    cl.closed_step = si;
+    cl.closed_pos = log.len();
+    cl.end = if reset { End::Reset } else { End::Closed };
+    if let Some(s) = cl.stream.take() {
+        if reset {
+            let _ = socket2::SockRef::from(&s).set_linger(Some(Duration::from_secs(0)));
+        }
+        let _ = s.shutdown(std::net::Shutdown::Both);
+        drop(s);
+    }
+    if let Some(h) = cl.reader.take() {
+        let _ = h.join();
+    }
+}
+
 fn session(tag: &str, buffer: Option<usize>, script: &[Step], out: &mut Out) {
     out.case(tag);
     let log = log();
@@ -1097,6 +1209,89 @@ fn session(tag: &str, buffer: Option<usize>, script: &[Step], out: &mut Out) {
                             break;
                         }
                     }
+                }
+            }
+            Step::Round { steps } => {
+                out.count("step poll round (events piled up while the transport thread is held before its poll)");
+                let gate = tgate();
+                gate.set_mask(HOLD_IDLE);
+                let room = |rec: &TcpRecorder| buffer.map_or(true, |n| rec.verif_queue_len() + 1 <= n);
+                let mut socks: Vec<(bool, TcpStream, u16)> = vec![];
+                let mut failed: Option<String> = None;
+                let (mut n_emitted, mut n_conn) = (0usize, 0usize);
+                for (k, sub) in steps.iter().enumerate() {
+                    match sub {
+                        Step::Connect { staller } => match connect_client(port, *staller) {
+                            Ok(x) => {
+                                n_conn += 1;
+                                socks.push((*staller, x.0, x.1))
+                            }
+                            Err(e) => failed = Some(e),
+                        },
+                        Step::Describe { kind, name, unit, desc } => {
+                            if room(&rec) {
+                                let u = do_describe(&rec, *kind, name, *unit, desc);
+                                described.push(Described { step: si, name: name.clone(), kind: *kind, unit: u.map(|u| u.as_str().to_string()), desc: desc.clone() });
+                            }
+                        }
+                        Step::Emit { items } => {
+                            ensure_held(&rec, &mut held, items);
+                            for it in items {
+                                if !room(&rec) {
+                                    break;
+                                }
+                                apply(&rec, &held, it);
+                                emissions.push(Emission { step: si, thread: 0, seq: seqs[0], item: it.clone() });
+                                seqs[0] += 1;
+                                n_emitted += 1;
+                                out.count("emitted");
+                                out.count("emitted while the transport thread was held (one batch)");
+                            }
+                        }
+                        Step::Close { c } | Step::Reset { c } => {
+                            if !clients.is_empty() {
+                                let reset = matches!(sub, Step::Reset { .. });
+                                let k = c % clients.len();
+                                let cl = &mut clients[k];
+                                if cl.end == End::Open {
+                                    out.count(if reset { "step reset" } else { "step close" });
+                                    do_close(cl, reset, si, log);
+                                }
+                            }
+                        }
+                        _ => {}
+                    }
+                    if failed.is_some() {
+                        break;
+                    }
+                    if k == 0 && gate.wait_parked(WAIT).is_none() {
+                        // the first sub-step makes the thread run one round of its loop; it parks at `Idle`
+                        failed = Some(format!("the transport thread did not come back to its poll within {:?}", WAIT));
+                        break;
+                    }
+                }
+                if n_conn > 0 && n_emitted > 0 {
+                    out.count("poll round with a connect and a batch");
+                }
+                gate.release(0);
+                if let Some(e) = failed {
+                    hung = Some(e);
+                    break;
+                }
+                for (st, stream, local_port) in socks {
+                    match wait_accept(log, port, local_port) {
+                        Some((token, pos)) => clients.push(new_client(st, stream, local_port, token, pos, si, last_settle)),
+                        None => {
+                            hung = Some(format!("the exporter did not accept connection #{} (made while the transport thread was held) within {:?}", clients.len(), WAIT));
+                            break;
+                        }
+                    }
+                }
+                let want = described.len();
+                if hung.is_none()
+                    && log.wait(WAIT, |recs| if recs.iter().filter(|(p, r)| *p == port && matches!(r, Record::IngestMetadata { .. })).count() >= want { Some(()) } else { None }).is_none()
+                {
+                    hung = Some(format!("describe #{} was not ingested by the transport thread within {:?}", want, WAIT));
                 }
             }
             Step::HalfClose { c } | Step::Send { c, .. } => {
@@ -1399,6 +1594,9 @@ fn session(tag: &str, buffer: Option<usize>, script: &[Step], out: &mut Out) {
     let mut gate_fail: Option<String> = None;
     let mut malformed: Option<String> = None;
     let mut nonfull = 0usize;
+    // per token: the last `write` of the CURRENT wake-up's fan-out was not taken whole (WouldBlock / short write)
+    let mut refused_now: HashMap<usize, bool> = HashMap::new();
+    let mut undue_drop: Option<String> = None;
     for (ti, r) in trace.iter().enumerate() {
         match r {
             Record::Start | Record::Recv | Record::Stop | Record::Idle => {}
@@ -1441,7 +1639,10 @@ fn session(tag: &str, buffer: Option<usize>, script: &[Step], out: &mut Out) {
                     ));
                 }
             }
-            Record::Wake => cur = Cur::Wake { metas: vec![], frames: None, toks: BTreeMap::new(), in_drive: None },
+            Record::Wake => {
+                refused_now.clear();
+                cur = Cur::Wake { metas: vec![], frames: None, toks: BTreeMap::new(), in_drive: None }
+            }
             Record::IngestMetadata { frame } => {
                 if let Cur::Wake { metas, .. } = &mut cur {
                     let name = name_of(frame).unwrap_or_else(|| {
@@ -1489,8 +1690,24 @@ fn session(tag: &str, buffer: Option<usize>, script: &[Step], out: &mut Out) {
                 _ => malformed = Some("Enqueue outside accept/wake".into()),
             },
             Record::DropOldest { token, count } => {
-                had_drop.insert(*token);
+                // (a discard for a client that is not slow excuses nothing: the stream oracles below then still
+                // demand the metadata known at connect and every later metric from its stream)
+                if refused_now.get(token).copied().unwrap_or(false) {
+                    had_drop.insert(*token);
+                }
                 out.count_n("frames discarded for a slow client", *count as u64);
+                // only a SLOW client may have older messages discarded: one whose socket, asked in this very
+                // fan-out, did not take what it was offered.  A client that has just been accepted (metadata
+                // queued, never written to) or whose parked buffer the socket would take now is not slow.
+                if !refused_now.get(token).copied().unwrap_or(false) && undue_drop.is_none() {
+                    undue_drop = Some(format!(
+                        "trace record #{}: {} queued frame(s) discarded for token {} although in this fan-out its socket had not refused anything ({}); the queue held metadata/frames a healthy client is owed",
+                        ti,
+                        count,
+                        token,
+                        if refused_now.contains_key(token) { "its last write was taken whole" } else { "no write was attempted on it before the discard" }
+                    ));
+                }
                 if let Cur::Wake { toks, .. } = &mut cur {
                     toks.entry(*token).or_default().dropped += count;
                 } else {
@@ -1521,6 +1738,7 @@ fn session(tag: &str, buffer: Option<usize>, script: &[Step], out: &mut Out) {
                 if !full {
                     nonfull += 1;
                 }
+                refused_now.insert(*token, !full);
                 out.count(&format!(
                     "write {}{}",
                     match outcome {
@@ -1584,6 +1802,9 @@ fn session(tag: &str, buffer: Option<usize>, script: &[Step], out: &mut Out) {
     }
     if let Some(m) = &malformed {
         fail(out, &script_txt, "trace malformed", m.clone());
+    }
+    if let Some(d) = &undue_drop {
+        fail(out, &script_txt, "frames discarded for a client that is not slow", d.clone());
     }
     if let Some(g) = &gate_fail {
         fail(out, &script_txt, "gate out of step with the connected clients", g.clone());
@@ -1654,6 +1875,11 @@ fn session(tag: &str, buffer: Option<usize>, script: &[Step], out: &mut Out) {
             if let Ev::Meta { name, ty, unit, desc } = e {
                 if !seen_meta.insert(name.clone()) {
                     fail(out, &script_txt, "duplicated frame", format!("{}: metadata for {:?} twice", who, name));
+                }
+                // described in the same poll round as the connect: may be known at accept, or not
+                let same_round = described.iter().filter(|d| d.step == c.connect_step && d.name == *name).any(|d| *ty == d.kind as u64 && *unit == d.unit && desc.as_deref() == Some(d.desc.as_str()));
+                if same_round {
+                    continue;
                 }
                 match must.get(name) {
                     Some(d) => {
